@@ -89,7 +89,7 @@ def pipelineStep (d : PDrv) (line : String) : PDrv × String :=
   | "pcall" :: kind :: arg :: fault :: opts =>
     match parsePCall kind arg, parsePFault fault with
     | some c, some F =>
-      -- `seq=<items>`: the real order of the steps (hook H14) and I/O events of this call
+      -- `seq=<items>`: the real order of the steps (hook H15) and I/O events of this call
       let seqItems : Option (List String) := (opts.find? (·.startsWith "seq=")).map (fun o => optList (o.drop 4).toString ",")
       -- a fault-free call brings its own work: the labels of its own I/O events
       let ownIos : Option (List Io) :=
